@@ -151,6 +151,13 @@ class ExtractionError(Exception):
     pass
 
 
+def _limit_memory():
+    # one extractor process may use at most 12 GB of address space: a pathological unit fails (analysis broken) instead of exhausting the machine
+    import resource
+    lim = 12 * 1024 ** 3
+    resource.setrlimit(resource.RLIMIT_AS, (lim, lim))
+
+
 def _run_one(u):
     out = unit_path(u)
     if os.path.exists(out):
@@ -162,7 +169,7 @@ def _run_one(u):
         cmd.append("--no-patterns")
     cmd += [u.source, "--"] + u.flags()
     t = time.time()
-    r = subprocess.run(cmd, stdout=subprocess.PIPE, stderr=subprocess.PIPE, text=True)
+    r = subprocess.run(cmd, stdout=subprocess.PIPE, stderr=subprocess.PIPE, text=True, preexec_fn=_limit_memory)
     dt = time.time() - t
     if r.returncode != 0 or not os.path.exists(tmp):
         try:
